@@ -24,15 +24,20 @@ def rule_limit_restored(em, rep, rid):
     rep.rule(rid, 'with every call treated as may-raise: every path from sys.setrecursionlimit(<new>) to any exit passes '
                   'sys.setrecursionlimit(<saved>), <saved> being a local assigned once from sys.getrecursionlimit() '
                   'before the acquire')
-    f = _method(em, 'evaluate_bounded')
+    funcs = [f for f in em.repo.all_functions(('engine',)) if any(
+        isinstance(x, ast.Call) and norm(x.func).endswith('setrecursionlimit') for x in own_nodes(f.node))]
+    if not funcs:
+        rep.note(rid, 'the engine never changes the recursion limit')
+        return
+    for f in funcs:
+        _limit_restored_in(em, rep, rid, f)
+
+
+def _limit_restored_in(em, rep, rid, f):
     cfg = em.cfg(f)
     saves = [n for n in cfg.nodes if n.kind == 'store' and isinstance(n.ast, ast.Name) and isinstance(n.info, ast.Call)
              and norm(n.info.func).endswith('getrecursionlimit')]
     sets = [n for n in cfg.nodes if n.kind == 'call' and norm(n.ast.func).endswith('setrecursionlimit')]
-    if not sets:
-        # nothing is acquired: nothing to restore (the limit is then not enforced, which P2 reports)
-        rep.note(rid, 'evaluate_bounded does not change the recursion limit')
-        return
     if not saves:
         rep.violation(rid, f.qname + ':save', 'the recursion limit is changed but the previous value is never saved', f.loc())
         return
@@ -47,17 +52,14 @@ def rule_limit_restored(em, rep, rid):
         if len(nstores) != 1 or saves[0] not in dom[a]:
             rep.violation(rid, key, 'the saved limit %s is reassigned or not saved before the limit is changed' % saved, f.loc(a.stmt))
             continue
-        starts = [m for lbl, m in cfg.g.succ.get(a, ()) if lbl != 'exc']
-        path = None
-        for s in starts:
-            if s in releases:
-                continue
-            path = cfg.g.find_path(a, lambda m: m.kind == 'exit', avoid=lambda m: m in releases,
-                                   edge_ok=lambda lbl, x, y: not (x is a and lbl == 'exc'))
-            break
+        # in a @contextmanager helper the body of the with statement runs at the yield: an exception raised there is
+        # thrown into the generator at that point (the throw edge of the yield)
+        path = cfg.g.find_path(a, lambda m: m.kind == 'exit', avoid=lambda m: m in releases,
+                               edge_ok=lambda lbl, x, y: not (x is a and lbl == 'exc'))
         if path is not None:
-            rep.violation(rid, key, 'the interpreter-wide recursion limit is not restored on the path to EXIT(%s)' % path[-1][1].info,
-                          f.loc(a.stmt), cfg.describe_path(path))
+            rep.violation(rid, key, 'the interpreter-wide recursion limit is not restored on the path to EXIT(%s)%s' % (
+                path[-1][1].info, ' (an exception in the with-body is thrown in at the yield)' if f.is_contextmanager else ''),
+                f.loc(a.stmt), cfg.describe_path(path))
         else:
             rep.ok(rid, key, 'restored with %s on all %d exit kind(s)' % (saved, len(cfg.exit_nodes())), f.loc(a.stmt))
 
@@ -302,9 +304,11 @@ def rule_key_templates(em, rep, rid, emitter_side=True):
     reg = _method(em, 'register_function')
     n_ok = 0
     for f, n, kind, keyexpr in sites:
-        if f not in (q, reg):
+        if f.cls is not em.YP:
             continue
         t = template(resolve_local_expr(f, keyexpr))
+        if f not in (q, reg) and key_shape(t) is None and not any(k == 'lit' and '_' in v for k, v in t):
+            continue        # a key that is merely passed through (e.g. the merge loop of a load)
         shape = key_shape(t)
         key = '%s:%s %s' % (f.qname, kind, norm(keyexpr))
         n_ok += 1
@@ -314,13 +318,13 @@ def rule_key_templates(em, rep, rid, emitter_side=True):
             continue
         if shape == 'exact':
             num = t[2][1]
-            okn = num.startswith('len(') or _is_int_local(f, num)
+            okn = num.startswith('len(') or _is_int_local(f, num) or _int_at_call_sites(em, f, num)
             if not okn:
                 rep.violation(rid, key, 'the arity part {%s} of the key is not an integer expression' % num, f.loc(n))
                 continue
         name_hole = t[0][1]
         params = f.params[1:]
-        if name_hole != params[0]:
+        if f in (q, reg) and name_hole != params[0]:
             rep.violation(rid, key, 'the name part {%s} of the key is not the predicate name parameter %s' % (name_hole, params[0]), f.loc(n))
             continue
         rep.ok(rid, key, '%s key %s' % (shape, ''.join(v if k == 'lit' else '{%s}' % v for k, v in t)), f.loc(n))
@@ -352,6 +356,24 @@ def rule_key_templates(em, rep, rid, emitter_side=True):
                         rep.violation(rid, key, 'the emitted "def" name is not name_<number of arguments>: compiled predicates '
                                       'are stored under a key that query() does not look up', gf.loc(n))
         rep.minimum('emitted def-name templates', found, 1)
+
+
+def _int_at_call_sites(em, f, pname):
+    """a parameter that every call site in the repository passes an integer expression for"""
+    if pname not in f.params:
+        return False
+    sites = em.cg.call_sites_of(f)
+    if not sites:
+        return False
+    for g, call in sites:
+        a = arg_for_param(call, f, pname)
+        if a is None:
+            return False
+        t = norm(a)
+        if not (t.startswith('len(') or (isinstance(a, ast.Constant) and isinstance(a.value, int)) or
+                (isinstance(a, ast.Name) and (_is_int_local(g, a.id) or _int_at_call_sites(em, g, a.id)))):
+            return False
+    return True
 
 
 def _is_int_local(f, name):
